@@ -69,11 +69,11 @@ def case(args):
     if getattr(sp, "force_yield", False):
         # the schedule matters here: several delay seeds for the same workflow
         for k in range(6):
-            r = t3.success_case(sp, yield_seed=(ys[0] + k, rng.choice([50, 300, 1000])), gomaxprocs=gmp)
+            r = t3.success_case(sp, yield_seed=(ys[0] + k, rng.choice([50, 300, 1000])), gomaxprocs=gmp, replays=("net", "tasks"))
             if r["problems"]:
                 break
         return r
-    return t3.success_case(sp, yield_seed=ys, gomaxprocs=gmp)
+    return t3.success_case(sp, yield_seed=ys, gomaxprocs=gmp, replays=("net", "tasks"))
 
 
 def run(rep, tier, seed):
